@@ -87,10 +87,12 @@ def random_tables(tier):
 
 # ---- vectors -----------------------------------------------------------------------------
 def vector_strategy(tier):
-    v = st.integers(-8, 8).map(lambda i: i / 2.0)
+    vd = st.integers(-8, 8).map(lambda i: i / 2.0)
+    vdec = st.integers(-20, 20).map(lambda i: i / 10.0)     # decimal values: not representable in float32
 
     @st.composite
     def s(draw):
+        v = draw(st.sampled_from([vd, vd, vdec]))
         n = draw(st.integers(0, 24 if tier == "quick" else 120))
         o = draw(st.lists(st.one_of(v, v, v, st.none()), min_size=n, max_size=n))
         f = draw(st.lists(st.one_of(v, v, v, st.none()), min_size=n, max_size=n))
